@@ -1,7 +1,10 @@
 package checks
 
 import (
+	"encoding/json"
 	"fmt"
+	"os"
+	"path/filepath"
 	"strings"
 	"time"
 
@@ -35,10 +38,13 @@ type schedCase struct {
 // schedThemes: requests that meet on one entry; a case draws most of its
 // requests from one theme.
 var schedThemes = map[string][]string{
-	"f":   {"walk-f", "walk-D-f", "clone-2", "open-2", "getattr-2", "getattr-2", "setattr-2", "xattrwalk-2", "unlink-f", "unlink-f2", "ren-f-f2", "ren-g-f", "ren-f-E", "trename-2", "remove-2", "create-D", "link-D", "clunk-2"},
-	"k":   {"walk-sub-k", "walk-D-sub-k", "walk-3-k", "clone-4", "open-4", "getattr-4", "setattr-4", "unlink-k", "ren-k-D", "trename-4", "remove-4", "ren-sub-E", "ren-sub-sub3", "setattr-3", "create-sub", "mkdir-sub", "clunk-3", "clone-3"},
-	"e":   {"walk-D-e", "walk-D-e-x", "walk-D-e-x", "unlink-e", "remove-8", "mkdir-e", "ren-e-E", "getattr-8", "clone-8", "setattr-8"},
-	"dir": {"create-D", "mkdir-D", "symlink-D", "unlink-g", "unlink-s", "readlink-7", "walk-f", "ren-g-f", "ren-f-f2", "link-D", "setattr-D", "getattr-D"},
+	"f":      {"walk-f", "walk-D-f", "clone-2", "open-2", "getattr-2", "getattr-2", "setattr-2", "xattrwalk-2", "unlink-f", "unlink-f2", "ren-f-f2", "ren-g-f", "ren-f-E", "trename-2", "remove-2", "create-D", "link-D", "clunk-2"},
+	"k":      {"walk-sub-k", "walk-D-sub-k", "walk-3-k", "clone-4", "open-4", "getattr-4", "setattr-4", "unlink-k", "ren-k-D", "trename-4", "remove-4", "ren-sub-E", "ren-sub-sub3", "setattr-3", "create-sub", "mkdir-sub", "clunk-3", "clone-3"},
+	"e":      {"walk-D-e", "walk-D-e-x", "walk-D-e-x", "unlink-e", "remove-8", "mkdir-e", "ren-e-E", "getattr-8", "clone-8", "setattr-8"},
+	"fnew":   {"remove-2", "unlink-f", "create-f", "create-f", "ren-g-f", "walk-f", "open-2", "ren-f-f2", "mkdir-f"},
+	"knew":   {"remove-4", "unlink-k", "create-k", "create-k", "walk-3-k", "ren-k-D", "open-4", "ren-sub-E"},
+	"create": {"create-D", "create-D", "create-sub", "create-sub", "ren-new-new2", "ren-new-E", "ren-subnew-D", "ren-sub-E", "ren-D-E", "unlink-new", "walk-new", "ren-sub-sub3"},
+	"dir":    {"create-D", "mkdir-D", "symlink-D", "unlink-g", "unlink-s", "readlink-7", "walk-f", "ren-g-f", "ren-f-f2", "link-D", "setattr-D", "getattr-D"},
 }
 
 var schedAlphabet = []string{
@@ -46,6 +52,7 @@ var schedAlphabet = []string{
 	"open-2", "open-4", "getattr-2", "getattr-4", "setattr-2", "setattr-3", "setattr-4", "readlink-7", "xattrwalk-2",
 	"unlink-f", "unlink-g", "unlink-k", "unlink-e", "unlink-s", "ren-f-f2", "ren-g-f", "ren-sub-E", "ren-f-E", "ren-k-D", "ren-sub-sub3",
 	"trename-2", "trename-4", "remove-2", "remove-8", "remove-4", "create-D", "create-sub", "mkdir-D", "mkdir-sub", "symlink-D", "link-D", "clunk-2", "clunk-3",
+	"create-f", "create-k", "mkdir-f", "ren-new-new2", "ren-new-E", "ren-subnew-D", "unlink-new", "walk-new", "ren-D-E",
 	"unlink-f2", "walk-D-e-x", "mkdir-e", "ren-e-E", "getattr-8", "clone-8", "setattr-8", "setattr-D", "getattr-D",
 }
 
@@ -99,6 +106,18 @@ func schedMsg(kind string) *refcodec.Msg {
 		return tUnlinkat(1, "s")
 	case "ren-f-f2":
 		return tRenameat(1, "f", 1, "f2")
+	case "ren-new-new2":
+		return tRenameat(1, "new", 1, "new2")
+	case "ren-new-E":
+		return tRenameat(1, "new", 5, "new")
+	case "ren-subnew-D":
+		return tRenameat(3, "new", 1, "new3")
+	case "unlink-new":
+		return tUnlinkat(1, "new")
+	case "walk-new":
+		return tWalk(1, 20, "new")
+	case "ren-D-E":
+		return tRenameat(0, "D", 5, "D2")
 	case "ren-g-f":
 		return tRenameat(1, "g", 1, "f")
 	case "ren-sub-E":
@@ -121,6 +140,12 @@ func schedMsg(kind string) *refcodec.Msg {
 		return tRemove(4)
 	case "create-D":
 		return tCreate(1, "new", 2, 0o644)
+	case "create-f":
+		return tCreate(1, "f", 2, 0o644)
+	case "create-k":
+		return tCreate(3, "k", 2, 0o644)
+	case "mkdir-f":
+		return tMkdir(1, "f")
 	case "create-sub":
 		return tCreate(3, "new", 2, 0o644)
 	case "mkdir-D":
@@ -178,6 +203,10 @@ func runSchedCaseKeep(c schedCase, st *schedStats, keep func(sig string) bool) *
 	fs.Tree.Mkdir(d, "e", 0o755, 0, 0)
 	fs.Tree.Mkdir(fs.Tree.Root, "E", 0o755, 0, 0)
 	srv := p9.NewServer(fs)
+	// (library hook: the moment between Tlcreate's bookkeeping and the
+	// installation of the new fid is a stop like a backend call)
+	srv.VerifSetPoint(fs.StepPoint)
+	defer srv.VerifSetPoint(nil)
 	var ss []*peers.Session
 	desc := fmt.Sprintf("%+v", c)
 	stepCh := make(chan *memfs.StepCall, 256)
@@ -342,6 +371,57 @@ func runSchedCaseKeep(c schedCase, st *schedStats, keep func(sig string) bool) *
 	if nAnswered < len(c.Reqs) {
 		return failf("request-never-answered:scheduled", "%d of %d requests were answered; schedule: %s (%s)", nAnswered, len(c.Reqs), strings.Join(trace, " > "), desc)
 	}
+	// afterwards, in sequence: every fid that is still bound and whose object is
+	// still the entry at its path must not be fenced (a fid bound to a new file of
+	// a name is unaffected by what happened to the old one)
+	hasLink := false
+	for _, k := range c.Reqs {
+		if k == "link-D" {
+			hasLink = true
+		}
+	}
+	if keep == nil || keep("live-fid-fenced:scheduled") {
+		for i, s := range ss {
+			for fid := uint64(1); fid <= 8; fid++ {
+				before := fs.Seq()
+				r, err := s.Call(withTag(tGetattr(fid), uint16(200+fid)))
+				// whatever the answer: the File behind the fid must know where its object is
+				// now (not judged when hard links were made: an object then has several names)
+				for _, lc := range fs.LogSince(before) {
+					if lc.Op != "GetAttr" || hasLink {
+						continue
+					}
+					if at, hp, known := fs.WhereIs(lc.Handle); known && len(at) > 0 && at[0] != hp {
+						return failf("file-not-told-its-name:scheduled", "after the schedule, fid %d of connection %d (request %s) stands for h%d, which believes to be at %s, but its object is at %v: the File was not told its new parent and name; schedule: %s (%s)", fid, i, c.Reqs[i], lc.Handle, hp, at, strings.Join(trace, " > "), desc)
+					}
+				}
+				if err != nil {
+					return failf("request-never-answered:scheduled", "probe Tgetattr(fid %d) on connection %d was not answered (%v); schedule: %s (%s)", fid, i, err, strings.Join(trace, " > "), desc)
+				}
+				if r.Type == refcodec.Rlerror {
+					continue
+				}
+				hid := 0
+				for _, lc := range fs.LogSince(before) {
+					if lc.Op == "GetAttr" {
+						hid = lc.Handle
+					}
+				}
+				live, known := fs.LiveAtPath(hid)
+				if hid == 0 || !known || !live {
+					continue
+				}
+				r, err = s.Call(withTag(refcodec.New(refcodec.Tsetattr, 0, "fid", fid, "valid", 0), uint16(220+fid)))
+				if err != nil {
+					return failf("request-never-answered:scheduled", "probe Tsetattr(fid %d) on connection %d was not answered (%v); schedule: %s (%s)", fid, i, err, strings.Join(trace, " > "), desc)
+				}
+				if e, isErr := refcodec.Errno(refcodec.Encode(r)); isErr {
+					hi, _ := fs.HandleByID(hid)
+					return failf("live-fid-fenced:scheduled", "after the schedule, fid %d of connection %d (request %s) stands for h%d (%s), whose object is still the entry at that path, but Tsetattr(valid=0) through it is refused with errno %d; schedule: %s (%s)", fid, i, c.Reqs[i], hid, hi.Path, e, strings.Join(trace, " > "), desc)
+				}
+			}
+		}
+	}
 	for _, an := range fs.Anomalies() {
 		if keep != nil && !keep(an.Sig) {
 			continue
@@ -400,6 +480,33 @@ func schedSubCheck(h *H, n int, themes []string, keep func(sig string) bool) {
 		}
 		return f
 	}
+	// replay tier: saved schedules (each once was a violation)
+	if h.Env.Shard == 0 {
+		if ents, err := os.ReadDir(filepath.Join("..", "corpus", "sched")); err == nil {
+			for _, e := range ents {
+				rf, err := evid.LoadReplay(filepath.Join("..", "corpus", "sched", e.Name()))
+				var sc schedCase
+				if err == nil {
+					err = json.Unmarshal(rf.Case, &sc)
+				}
+				if err != nil {
+					h.t.Errorf("HARNESS-ERROR corpus %s: %v", e.Name(), err)
+					continue
+				}
+				for rep := 0; rep < 3; rep++ {
+					f := run(sc, nil)
+					h.Case(evid.HashJSON(sc)+uint64(rep), true, "scheduled:saved-corpus")
+					if f != nil && strings.HasPrefix(f.Sig, "harness-") {
+						h.t.Errorf("HARNESS-ERROR %s", f.Msg)
+						break
+					}
+					if h.report("scheduled", f, sc) {
+						return
+					}
+				}
+			}
+		}
+	}
 	rapidCases(h, "scheduled", n, func(rt *rapid.T) schedCase { return genSchedCase(rt, themes) }, func(c schedCase) *fail {
 		st := &schedStats{}
 		f := run(c, st)
@@ -414,7 +521,9 @@ func schedSubCheck(h *H, n int, themes []string, keep func(sig string) bool) {
 
 // keepC08: calls that reached the backend on a File whose entry had been
 // unlinked or replaced (the fence of C08).
-func keepC08(sig string) bool { return strings.HasPrefix(sig, "fenced-path-reached:") }
+func keepC08(sig string) bool {
+	return strings.HasPrefix(sig, "fenced-path-reached:") || strings.HasPrefix(sig, "live-fid-fenced") || strings.HasPrefix(sig, "file-not-told-its-name")
+}
 
 // keepC09: walk steps taken from a node that is no longer the directory the
 // backend reported (C09: a walk advances only through directories).
